@@ -72,25 +72,76 @@ Definition dec_step (v : val) : option (sobs * (Z * list Z)) :=
 Definition dec_steps (v : val) : option (list (sobs * (Z * list Z))) :=
   match v with VL l => all_some (map dec_step l) | _ => None end.
 
+(* ---- live connection inputs: [7 [step ...]] ; step = [1 sid n] request | [3 sid] RST | [4 sid inc] WINDOW_UPDATE
+        | [5 v] SETTINGS_INITIAL_WINDOW_SIZE | [6 v] SETTINGS_MAX_FRAME_SIZE
+   observation: one list per step of frames received in order: [0 sid len es] DATA | [1] SETTINGS ack | [2] GOAWAY/closed *)
+Definition dec_lstep (v : val) : option lstep :=
+  match v with
+  | VL [VZ 1; VZ s; VZ n] => Some (LReq s n)
+  | VL [VZ 3; VZ s] => Some (LRst s)
+  | VL [VZ 4; VZ s; VZ n] => Some (LWin s n)
+  | VL [VZ 5; VZ x] => Some (LSetIW x)
+  | VL [VZ 6; VZ x] => Some (LSetMF x)
+  | _ => None
+  end.
+Definition dec_live (v : val) : option (list lstep) :=
+  match v with
+  | VL [VZ 7; VL l] => all_some (map dec_lstep l)
+  | _ => None
+  end.
+Definition dec_levent (v : val) : option levent :=
+  match v with
+  | VL [VZ 0; VZ s; VZ n; VZ e] => Some (EData s n (negb (e =? 0)))
+  | VL [VZ 1] => Some EAck
+  | VL [VZ 2] => Some EDead
+  | _ => None
+  end.
+Definition dec_lobs (v : val) : option (list (list levent)) :=
+  match v with
+  | VL l => all_some (map (fun x => match x with VL es => all_some (map dec_levent es) | _ => None end) l)
+  | _ => None
+  end.
+(* the client-side window accounting accepts the frames the real server sent *)
+Definition live_ok (script : list lstep) (o : val) : bool :=
+  match dec_lobs o with
+  | Some obs => lvalidate lstate0 script obs
+  | None => false
+  end.
+
 Definition run_C34 (i : val) : val :=
+  match dec_live i with
+  | Some _ => VL [VZ 7]           (* no canonical trace: the amount of DATA per step is timing dependent *)
+  | None =>
   match dec_sops i with
   | None => VErr 0
   | Some ops => VL (map enc_step (srun sst0 ops))
+  end
   end.
 
 (* trace validation: the observation must be one of the behaviours the model allows (any map-iteration choice) *)
 Definition agree_C34 (i o : val) : bool :=
+  match dec_live i with
+  | Some script => live_ok script o
+  | None =>
   match dec_sops i, dec_steps o with
   | Some ops, Some obs => svalidate sst0 ops obs
   | _, _ => false
+  end
   end.
 
-(* THE PROPERTY: the specification checker of H2Sched.v (client-side window accounting in Z, per-stream FIFO
-   with byte-exact splitting, nothing sent for a stream after forget, no panic) accepts the observed trace *)
+(* THE PROPERTY.  Unit level: the specification checker of H2Sched.v (client-side window accounting in Z, per-stream
+   FIFO with byte-exact splitting, nothing sent for a stream after forget, no panic) accepts the observed trace.
+   Live connection: every DATA frame the server sent is within the stream window, the connection window and the
+   max frame size as the client computes them (SETTINGS deltas on all open streams, WINDOW_UPDATEs, DATA received),
+   never exceeds the response body, and none arrives after END_STREAM or after a reset was processed. *)
 Definition prop_C34 (i o : val) : bool :=
+  match dec_live i with
+  | Some script => live_ok script o
+  | None =>
   match dec_sops i, dec_steps o with
   | Some ops, Some obs => spec_run spec0 ops (map fst obs)
   | _, _ => false
+  end
   end.
 
 Definition kf_C34 (i : val) : Z := 0.
